@@ -208,7 +208,7 @@ OAUTH_FLOWS = {
 }
 
 SCHEMES = [
-    {"description": "API key in a header", "name": "sec1", "fieldName": "x-api-key", "type": "apiKey", "in": "header"},
+    {"description": "API key in a header ($DEMO_API_KEY, ${HOME})", "name": "sec1", "fieldName": "x-api-key", "type": "apiKey", "in": "header"},
     {"description": "Bearer token", "name": "sec2", "scheme": "bearer", "type": "http"},
     {"description": "OAuth2", "name": "sec3", "type": "oauth2", "flows": OAUTH_FLOWS},
     {"description": "OIDC", "name": "sec4", "type": "openIdConnect",
@@ -227,12 +227,12 @@ def maximal_config():
         },
         "openapiGeneratorConfig": {
             "openapi": "3.0.0",
-            "info": {"title": "Sample API", "description": "A \"quoted\" description, café",
+            "info": {"title": "Sample API ($beta)", "description": "A \"quoted\" description, café; prices in $USD from $5, ${tenant}",
                      "termsOfService": "https://example.com/terms",
                      "contact": {"name": "API Support", "url": "https://example.com/support", "email": "support@example.com"},
                      "license": {"name": "Apache 2.0", "url": "https://www.apache.org/licenses/LICENSE-2.0.html"},
                      "version": "1.2.3"},
-            "baseUrl": "https://api.example.com/v1",
+            "baseUrl": "https://api.example.com/v1/$metadata",
             "securitySchemes": copy.deepcopy(SCHEMES[:4]),
             "defaultSecurity": {"name": "sec1", "scopes": ["read"]},
             "specGeneratorConfig": {"outputPath": "./out/openapi.json"},
